@@ -101,6 +101,7 @@ type sessCfg struct {
 	Role    string `json:"role"`
 	Strict  bool   `json:"strict"`
 	AddPath bool   `json:"addpath"`
+	RRC     string `json:"rrc"` // "no" | "default" (cluster id = router id) | "explicit" (cluster id 7)
 }
 
 type sessOpen struct {
@@ -193,6 +194,12 @@ func newSession(cfg sessCfg) *session {
 		KeepAlive: time.Duration(cfg.Hold) * time.Second / 3, IPv4: af(), IPv6: af(), PeerRoleStrictMode: cfg.Strict}
 	if cfg.Role != "none" && cfg.Role != "" {
 		pc.PeerRole = sessRoleConfig(cfg.Role)
+	}
+	if cfg.RRC == "default" || cfg.RRC == "explicit" {
+		pc.RouteReflectorClient = true
+		if cfg.RRC == "explicit" {
+			pc.RouteReflectorClusterID = 7
+		}
 	}
 	if err := s.srv.AddPeer(pc); err != nil {
 		panic("harness: AddPeer: " + err.Error())
@@ -537,6 +544,15 @@ func (s *session) diff(exp sessState, got sessState, subs []int, malformedEarly 
 	if c := s.vrf.IsContributingASN(65000); c != exp.Attached {
 		return "asn-contribution", "wrong", exp.Attached, c
 	}
+	if s.cfg.RRC == "default" || s.cfg.RRC == "explicit" {
+		cid := uint32(100)
+		if s.cfg.RRC == "explicit" {
+			cid = 7
+		}
+		if c := s.vrf.IsContributingClusterID(cid); c != exp.Attached {
+			return "cluster-id-contribution", "wrong", exp.Attached, c
+		}
+	}
 	return "", "", nil, nil
 }
 
@@ -591,7 +607,12 @@ func init() {
 				class = st.Str("g")
 				s.conn.peerSend(garbageBytes(st.Str("g")))
 			case "RecvNotification":
-				s.conn.peerSend(wire.Header(wire.TypeNotification, []byte{6, 0}))
+				class = st.Str("n")
+				body := []byte{byte(st.Int("code")), byte(st.Int("sub"))}
+				for k := 0; k < st.Int("datalen"); k++ {
+					body = append(body, byte(k+1))
+				}
+				s.conn.peerSend(wire.Header(wire.TypeNotification, body))
 			case "HoldExpires":
 				server.VerifAgeHoldTimer(s.srv, s.vrf, s.peerKey, time.Hour)
 				wait = 10 * time.Second // the periodic check runs once per second and competes with the keepalive timer
